@@ -7,6 +7,7 @@ package c22
 import (
 	"testing"
 
+	"github.com/elastos/Elastos.ELA/common"
 	"pgregory.net/rapid"
 	"verifharness/lib/vk"
 	"verifharness/statekit"
@@ -16,8 +17,14 @@ import (
 func TestMain(m *testing.M) { vk.Main(m, "C22") }
 
 func TestRollbackEqualsDirect(t *testing.T) {
-	cfg := rbk.Config{Prop: "C22", Side: rbk.CR, Eras: rbk.ErasFromEnv([]int{1, 1, 2, 2}),
-		Profile: func(t *rapid.T, p *statekit.Profile, era statekit.Era) { statekit.CRFocusProfile(t, p) },
+	cfg := rbk.Config{Prop: "C22", Side: rbk.CR, Eras: rbk.ErasFromEnv([]int{1, 1, 2, 2, 3, 3}),
+		Profile: func(t *rapid.T, p *statekit.Profile, era statekit.Era) {
+			if era >= statekit.EraV2 {
+				p.DPoSV2MaxVotesLockTime = 100000
+				p.DPoSV2EffectiveVotes = common.Fixed64(rapid.SampledFrom([]int64{80, 800}).Draw(t, "effective")) * statekit.ELA
+			}
+			statekit.CRFocusProfile(t, p)
+		},
 		// two thirds of the histories run past the second committee change
 		MaxHeight: func(t *rapid.T, p *statekit.Profile, era statekit.Era) uint32 {
 			change := p.CRCommitteeStart + p.DutyPeriod
@@ -25,11 +32,36 @@ func TestRollbackEqualsDirect(t *testing.T) {
 				return p.CRCommitteeStart + uint32(rapid.IntRange(2, int(p.DutyPeriod)).Draw(t, "maxheight"))
 			}
 			extra := 10
-			if vk.Thorough() {
+			if vk.Thorough() || era >= statekit.EraV2 && rapid.IntRange(0, 2).Draw(t, "third-term") == 0 {
+				// through the next term as well (in era v2 that election runs
+				// under the DPoS 2.0 rules: stake votes, claim period, next members)
 				extra = 10 + int(p.DutyPeriod)
 			}
 			return change + uint32(rapid.IntRange(1, extra).Draw(t, "past-second-change"))
 		},
-		Kinds: func(g *statekit.Gen, era statekit.Era) { statekit.CRFocusKinds(g) }}
+		Kinds: func(g *statekit.Gen, era statekit.Era) {
+			if era >= statekit.EraV2 {
+				// staking, DPoS 2.0 producers and votes keep the arbiters staffed;
+				// the stake also carries the CR votes of this era
+				g.AddKinds(statekit.C28Kinds())
+				g.AddKinds(statekit.CRV2Kinds())
+				g.NProducers = 12
+				g.MaxTxs = 4
+				statekit.SetC28Drive(g, true)
+			}
+			statekit.CRFocusKinds(g)
+			if era >= statekit.EraV2 {
+				focus := g.Boost
+				v2 := statekit.C28Kinds()
+				g.Boost = func(kind string) int {
+					b := focus(kind)
+					if _, ok := v2[kind]; ok && g.K.Height+1 >= g.K.Params.DPoSV2StartHeight {
+						b *= 3
+					}
+					return b
+				}
+			}
+		},
+		Done: func(g *statekit.Gen) { statekit.SetC28Drive(g, false) }}
 	rapid.Check(t, func(t *rapid.T) { rbk.Run(t, cfg) })
 }
